@@ -560,6 +560,7 @@ class Client:
             self.sock.settimeout(Client.read_timeout)
         except socket.error as msg:
             raise Error("Connection to server failed: %s" % str(msg))
+        self.authenticated = False
 
         if not self.__get_capabilities():
             raise Error("Failed to read capabilities from server")
